@@ -156,3 +156,69 @@ Example C02_nonvacuous :
   normalise V12 a2 = [("msg_type"%string, SInt 12); ("mmsi"%string, SInt 1); ("dest_mmsi"%string, SInt 2);
                       ("text"%string, SText [72; 73])].
 Proof. vm_compute. repeat split; reflexivity. Qed.
+
+(* ================================================================================================ *)
+(* Composition with the framing and the decoder entry point (Proofs/EndToEndC02.v over Proofs/EndToEnd.v):
+   C02_partial through the REAL public path
+       create -> to_bitarray -> encode_ascii_6 -> ais_to_nmea_0183 -> produce -> _assemble_messages -> decode
+   i.e. pyais.decode( *pyais.encode_msg(cls.create( **a )) ) and pyais.decode( *pyais.encode_dict({type, **a}) ). *)
+Require Import Model.Frame Model.Sentence Model.DecodeApi Proofs.EndToEndC02.
+
+(* Same hypotheses as C02_partial, nothing added: for every variant, every in-range assignment outside the guards,
+   both talkers and both channels, [c02_e2e_holds_for] (Proofs/EndToEndC02.v):
+     exists vs ss nmea vs',
+       create_msg (type_id v) (kwargs_of a) = Ok (cls_of v, vs)                                  the message is built,
+       encode_msg (cls_of v, vs) talker chan = Ok ss                                              encode_msg frames it,
+       encode_dict (("type", type_id v) :: kwargs_of a) talker chan = Ok ss                       encode_dict, key `type`,
+       (lookup_s "msg_type" a <> None -> encode_dict (kwargs_of a) talker chan = Ok ss)           encode_dict, key `msg_type`,
+       decode_api false ss = Ok (nmea, (cls_of v, vs'))                                           decode( *ss ) accepts,
+       agrees (cls_of v) vs' (normalise v a)                                                      every supplied field is back.
+   The bound the framing composition needs (at most 1800 bits = five sentences) is no hypothesis: C02_payload_bound
+   below proves from the regenerated tables that every class serialises to at most 1064 bits. *)
+Theorem C02_end_to_end : forall v a (talker channel : list Z),
+  (talker = frm_AIVDM \/ talker = frm_AIVDO) -> (channel = [65] \/ channel = [66]) ->
+  in_range v a = true -> c02_guard v a = true -> c02_e2e_holds_for v a talker channel.
+Proof. exact c02_end_to_end. Qed.
+Print Assumptions C02_end_to_end.
+
+(* to_bitarray cuts every field to its width, and the widths of every class add up to at most 1064 (5 slots) *)
+Theorem C02_payload_bound : forall c vs b, to_bitarray c vs = Ok b -> (List.length b <= 1064)%nat.
+Proof. exact to_bitarray_bound. Qed.
+Print Assumptions C02_payload_bound.
+
+(* the `type` key of a dictionary handed to encode_dict reaches get_ais_type only: create() ignores it *)
+Theorem C02_type_key_ignored_by_create : forall t x kw, create_msg t (("type"%string, x) :: kw) = create_msg t kw.
+Proof. exact create_msg_skip_type. Qed.
+Print Assumptions C02_type_key_ignored_by_create.
+
+(* non-vacuity, by vm_compute on the models: a two-sentence message (type 5: name, destination, draught) through
+   encode_dict with the key `type` on AIVDO / B, and a type 12 text message whose type is supplied as `msg_type` on
+   AIVDM / A; both satisfy the hypotheses of C02_end_to_end, are framed, decoded by decode_api, and the supplied fields
+   come back normalised (text upper-cased and cut at '@') *)
+Example C02_end_to_end_nonvacuous :
+  let a5 := [("mmsi"%string, SInt 351759000); ("shipname"%string, SText [69; 86; 69; 82; 32; 68; 73; 65; 68; 69; 77]);
+             ("destination"%string, SText [110; 101; 119; 32; 121; 111; 114; 107]); ("draught"%string, SFrac 122 10)] in
+  let a12 := [("msg_type"%string, SInt 12); ("mmsi"%string, SInt 1); ("dest_mmsi"%string, SInt 2);
+              ("text"%string, SText [104; 105; 32; 64; 120])] in
+  in_range V5 a5 = true /\ c02_guard V5 a5 = true /\
+  (exists s1 s2 nmea vs,
+     encode_dict (("type"%string, VInt 5) :: kwargs_of a5) frm_AIVDO [66] = Ok [s1; s2] /\
+     decode_api false [s1; s2] = Ok (nmea, (MessageType5, vs)) /\
+     nth 2 vs VNone = VInt 351759000 /\ nth 6 vs VNone = VStr [69; 86; 69; 82; 32; 68; 73; 65; 68; 69; 77] /\
+     nth 17 vs VNone = VFloat 122 10 /\ nth 18 vs VNone = VStr [78; 69; 87; 32; 89; 79; 82; 75]) /\
+  in_range V12 a12 = true /\ c02_guard V12 a12 = true /\ lookup_s "msg_type"%string a12 <> None /\
+  (exists nmea,
+     encode_dict (kwargs_of a12) frm_AIVDM [65]
+     = Ok [[33; 65; 73; 86; 68; 77; 44; 49; 44; 49; 44; 44; 65; 44; 60; 48; 48; 48; 48; 48; 64; 48; 48; 48; 48; 56; 56;
+            57; 80; 48; 72; 44; 48; 42; 55; 66]] /\                          (* !AIVDM,1,1,,A,<00000@0000889P0H,0*7B *)
+     decode_api false [[33; 65; 73; 86; 68; 77; 44; 49; 44; 49; 44; 44; 65; 44; 60; 48; 48; 48; 48; 48; 64; 48; 48; 48;
+                        48; 56; 56; 57; 80; 48; 72; 44; 48; 42; 55; 66]]
+     = Ok (nmea, (MessageType12, [VInt 12; VInt 0; VInt 1; VInt 0; VInt 2; VBool false; VBytes [0]; VStr [72; 73]]))).
+Proof.
+  cbv zeta. split; [vm_compute; reflexivity|]. split; [vm_compute; reflexivity|].
+  split.
+  { eexists. eexists. eexists. eexists. split; [vm_compute; reflexivity|]. split; [vm_compute; reflexivity|].
+    repeat split; vm_compute; reflexivity. }
+  split; [vm_compute; reflexivity|]. split; [vm_compute; reflexivity|]. split; [discriminate|].
+  eexists. split; vm_compute; reflexivity.
+Qed.
